@@ -344,6 +344,12 @@ where
                     Err(nom::Err::Error(err)) => affected_error(err.input),
                     Err(_) => panic!("Incomplete data"),
                 }
+            } else if input.location_offset()
+                != input.token_change.new_token_pos(this_range.start)
+            {
+                // The tokens at the current location are not the ones of this node,
+                // e.g. because a previous node no longer covers all of its old tokens.
+                affected_error(input)
             } else {
                 fn remove_messages(info: &mut AstInfo) {
                     info.errors.retain(|err| {
